@@ -297,6 +297,36 @@ def rule_r10(ck, prog, rule='C13.R10'):
     return cnt
 
 
+def rule_r11(ck, prog, rule='C13.R11'):
+    """"a null record is ignored": in every instantiation of the API template Logger::EmitLogRecord(unique_ptr<LogRecord> &&, args...)
+    nothing is applied to the record and nothing is emitted when the record pointer is null - with the pointer pinned to null no
+    argument setter (LogRecordSetterTrait / IgnoreTraitResult) and no virtual EmitLogRecord is reachable"""
+    cnt = 0
+    for f in sorted(prog.funcs.values(), key=lambda x: x.key):
+        if not strip_targs(f.qn).endswith('logs::Logger::EmitLogRecord') or not f.blocks or not f.params or 'unique_ptr<opentelemetry::logs::LogRecord>' not in f.params[0]['t'].replace(' ', ''):
+            continue
+        if f.d.get('virtual') or 'sdk::' in f.qn:
+            continue
+        rid = f.params[0]['id']
+        g = Graph(prog, f, inline=None, sync_lambdas=False)
+        uses = [p for p in g.points if p.f is f and p.n is not None and p.n['k'] == 'call' and
+                ('LogRecordSetterTrait' in (p.n.get('c') or '') or strip_targs(p.n.get('c', '')).endswith('Logger::EmitLogRecord') or
+                 'IgnoreTraitResult' in (p.n.get('c') or '')) and
+                any(f.nodes[i]['k'] == 'ref' and f.nodes[i].get('id') == rid for a in (p.n.get('args') or []) if a is not None and a >= 0 for i in list(f.subtree(a)) + [a])]
+        if not uses:
+            continue
+        cnt += 1
+        pins = {n['i']: False for n in f.nodes if n['k'] == 'ref' and n.get('id') == rid}
+        leak = feasible_reach(g, [g.entry], uses, pins=pins)
+        if cnt <= 1 or leak is not None:
+            ck.verdict(leak is None, rule, f, 'null-record-ignored(%d arguments)' % (len(f.params) - 1), uses[0].n,
+                       'with a null record nothing is applied or emitted' if leak is None else
+                       'the API EmitLogRecord(record, args...) applies its arguments to (or emits) a null record: the setters dereference nullptr instead of the call being ignored')
+    if cnt == 0:
+        raise AnalysisBroken('C13.R11: no instantiation of the API template Logger::EmitLogRecord(record, args...) in the driver unit')
+    return cnt
+
+
 def run(ck, prog):
     ck.doc('C13.R1', 'concrete log recordables own their data (no borrowing field types); API container setters view caller storage', 11)
     ck.doc('C13.R2', 'correlation: all three identity setters on every path behind a found active span; API setters sequenced left to right', 9)
@@ -308,8 +338,10 @@ def run(ck, prog):
     ck.doc('C13.R8', 'attribute copy callbacks handed to ForEachKeyValue never ask to stop', 1)
     ck.doc('C01.R3', '(shared rule, see C01) the container handed to Export is filled by this batch only', 4)
     ck.doc('C01.R4', '(shared rule, see C01) count handed to Consume derives from size() / the batch bound', 1)
+    ck.doc('C01.R5', '(shared rule, see C01) every constructor of the batch log processor creates the queue with the configured max_queue_size', 2)
     ck.doc('C02.R13', '(shared rule, see C02) the logger provider\'s destructor shuts its context down', 1)
     ck.doc('C13.R7', 'the simple log processor hands every record to the exporter (no path around Export)', 1)
+    ck.doc('C13.R11', 'the API template EmitLogRecord(record, args...) ignores a null record (no setter, no emit reachable)', 1)
     ck.doc('C13.R10', 'API argument setters build no string view over a pointer member that a constructor leaves null without testing it', 1)
     ck.doc('C13.R9', 'identity setters are independent: the shared trace-identity block is created only when absent', 3)
     ck.doc('C19.R7', '(shared rule, see C19) every named constructor parameter of the logger provider / context is used (the configurator reaches the context)', 3)
@@ -333,7 +365,10 @@ def run(ck, prog):
     from .common import Roles, callbacks_never_stop
     from ..callgraph import CallGraph
     cg = CallGraph(prog)
-    c01.rule_r3_r4(ck, prog, cg, Roles(prog, 'sdk::logs::BatchLogRecordProcessor', cg=cg))
+    lroles = Roles(prog, 'sdk::logs::BatchLogRecordProcessor', cg=cg)
+    c01.rule_r3_r4(ck, prog, cg, lroles)
+    # ... and accepted while the configured queue has room: every constructor sizes the queue with max_queue_size (see C01.R5)
+    c01.rule_r5(ck, prog, lroles)
     # the scope / resource a queued record points to stays alive until it is exported: the provider drains in its destructor
     c02.rule_r13(ck, prog, providers=('sdk::logs::LoggerProvider',))
     # attributes supplied as a KeyValueIterable are all copied
@@ -343,6 +378,7 @@ def run(ck, prog):
         raise AnalysisBroken('no ForEachKeyValue copy callback found in the logs API traits')
     rule_r9(ck, prog)
     rule_r10(ck, prog)
+    rule_r11(ck, prog)
     # "a disabled logger emits nothing" needs the configurator to reach the context through every provider constructor (see C19.R7)
     from . import c19
     c19.rule_r7(ck, prog)
